@@ -104,6 +104,7 @@ class Producer:
                 t = (self.make_type or (lambda r, uu, dd: G.gen_type(r, uu, dd)))(rng, u, rng.randint(0, self.cfg["depth"]))
                 if self.type_filter and not self.type_filter(t):
                     continue
+                t = U.canon(t)
                 opts = (self.make_opts or (lambda r: G.gen_opts(r, self.coerce)))(rng)
                 opts_gen = dict(opts, alias_fn=G.ALIASERS[opts["aliaser"]][0])
                 root = None
@@ -158,6 +159,7 @@ class Producer:
         return self.cases
 
     def one(self, U, uidx, u, opts, root, t, d, tag="gen"):
+        t = U.canon(t)      # one order per set of union alternatives / literal values (typing compares them as sets)
         c = Case()
         c.uidx, c.u, c.opts, c.root, c.t, c.data, c.tag = uidx, u, opts, root, t, d, tag
         try:
@@ -166,6 +168,8 @@ class Producer:
             self.R.count("observe_failed:" + type(e).__name__)
             return None
         try:
+            if G.has_inexact_int(d) and G.mentions_float(t, u):
+                raise ValueError("int rounded by float(): outside the exact-rational float model")
             c.obs = G.obs_coq(c.kind, c.payload, U)
             c.coq = G.case_coq(f"U{uidx}", opts, root, t, d, c.obs)
         except ValueError as e:
